@@ -158,6 +158,10 @@ NOINST static void single_getters(sb_t *s, const char *kind, const char *id, con
 		t_bidib_unified_accessory_state_query q = !strcmp(kind, "point") ? bidib_get_point_state(id) : bidib_get_signal_state(id);
 		sb_put(s, "\"%s\":", path); ser_unified(s, path, q);
 		bidib_free_unified_accessory_state_query(q);
+		if (id) {   /* position of the entity in the whole-track snapshot (documented: index into points_board / signals_board, -1 if not found) */
+			long long ix = (long long)(!strcmp(kind, "point") ? bidib_get_point_state_index(id) : bidib_get_signal_state_index(id));
+			sb_put(s, ",\"index:%s:%s\":%lld", kind, id, ix);
+		}
 	} else if (!strcmp(kind, "periph")) {
 		snprintf(path, sizeof path, "periph:%s", id ? id : "@null"); cur_path = path;
 		t_bidib_peripheral_state_query q = bidib_get_peripheral_state(id);
@@ -172,6 +176,7 @@ NOINST static void single_getters(sb_t *s, const char *kind, const char *id, con
 		if (TRUTH(q.known)) { COMMA(s); ser_segment_data(s, &q.data); } else isdef(&q.data.dcc_addresses, sizeof(void *), "dcc_addresses(read by free)");
 		sb_put(s, "}");
 		bidib_free_segment_state_query(q);
+		if (id) sb_put(s, ",\"index:segment:%s\":%lld", id, (long long)bidib_get_segment_state_index(id));
 	} else if (!strcmp(kind, "reverser")) {
 		snprintf(path, sizeof path, "reverser:%s", id ? id : "@null"); cur_path = path;
 		t_bidib_reverser_state_query q = bidib_get_reverser_state(id);
